@@ -25,15 +25,18 @@ RULE = ("Hypothesis draws well-formed definition closures (vlib.defgen.programs:
         "struct-contains-message, string-special, prefix-names - are enabled in every second program, singly and together; two programs in nine use the "
         "documented constructs in less usual form (classes many-symbols: a constant or array-length expression that names 11-16 constants; string-control: string "
         "constants with line breaks, tabs, carriage returns; rich-operators: constant and length expressions with << >> | & ^ ~ // % ** and unary signs; "
-        "inexact-div-length: lengths such as (BITS / 8) * N whose quotient is not whole), one in nine is a closure with ONE construct of vlib.defgen.add_hygiene "
+        "inexact-div-length: lengths such as (BITS / 8) * N whose quotient is not whole), one in ten has definitions called like a definition of ANOTHER namespace of the closure or of the imported "
+        "core definitions (names are unique per namespace: module id RTMA_LOG / EXIT / DATA_SET / LOCAL_HOST, host id TIMING_MESSAGE / QUICK_LOGGER, message MESSAGE_MANAGER / LOCAL_HOST, struct, "
+        "constant, string constant or alias called like a module id; new structs / messages / aliases are used as field types), a message called MM_ERROR / MM_INFO / DEBUG_TEXT or a struct / alias / "
+        "message called ``string`` (names a back end writes itself), and string constants whose lines look like YAML (host:port, key: value, - item, # text, leading / trailing blanks); one in ten is a closure with ONE construct of vlib.defgen.add_hygiene "
         "whose names are identifiers in all four languages (a constant that is .inf / -.inf / .nan - literal or result of an expression - or a YAML bool; a field "
         "named like a descriptor class of the generated Python class body followed by a field that needs it; a field named like the struct / MDF_<message> type of a "
-        "later field; a constant or string constant named like a field) - each of those 14 kinds also runs once per run on a two-message base: the compiler may refuse "
+        "later field; a constant or string constant named like a field; a host id that shares its name with a constant / string constant / alias / struct of the closure or of the core definitions) - each of those 25 kinds also runs once per run on a two-message base: the compiler may refuse "
         "such a closure with one of its own errors (counted), an internal error or an accepted closure whose output does not load is a finding under the construct's "
         "own class; every shard starts "
         "with hand-written covering programs (constants whose names contain one another - CHANS/CHANS_MAX, LEN/MAX_LEN, N1/N10 - used "
         "together in expressions and array lengths; alias chains of length 2 and 3 ending in an imported struct, used as scalar and array "
-        "field in a struct and in messages; the 26 native names; long float constants) and with files whose constant / string constant / alias / host id / struct is named like "
+        "field in a struct and in messages; the 26 native names; long float constants; every accepted cross-namespace name combination with core names and with user names; every text of the string vocabulary) and with files whose constant / string constant / alias / host id / struct is named like "
         "something the generated Python module uses itself (Double, Struct, ClassVar, MessageData, ...; the compiler may refuse them).  "
         "Every program is compiled in-process; then: the Python module is imported in a pristine interpreter (a brand-new process for the "
         "first two programs of every shard, otherwise a fork of a process that has only imported pyrtma) and get_msg_cls(id) must be the "
@@ -46,6 +49,7 @@ ASSUME = [
     "the MATLAB script hard-codes RTMA.MESSAGE_HEADER = RTMA.typedefs.RTMA_MSG_HEADER, which exists only with the core definitions imported: without them that one line is skipped",
     "the C header omits the core definitions on purpose (C clients include RTMA.h, not in the repository): it is compiled only for closures that use no core type name",
     "identifiers come from a vocabulary legal in Python, C, JavaScript and MATLAB",
+    "names are unique per namespace (constants / string constants / aliases / structs / messages; module ids; host ids): a definition called like a definition of another namespace - also of the imported core definitions - is no conflict and an ordinary member of the domain; a host id called like a constant / string constant / alias / struct is a near miss (the Python module writes all five under their bare name): refusal is accepted",
     "a bare definition named like a name the compilers generate for another one (struct MT_X next to message X) may be refused by the compiler with DuplicateNameError (not a finding)",
     "a definition named like something the generated Python module uses itself may be refused by the compiler (counted only); field names with a leading underscore are not legal MATLAB identifiers and are C04's subject (near misses), not C15's",
     "names that are no identifiers (MAX-N), definitions named like native types, fields named like Python or C keywords are outside 'identifiers that are legal in all four target languages': C04 generates them, C15 does not",
@@ -60,6 +64,10 @@ PREFIXES = ("MT_", "MID_", "HID_")
 # documented constructs in less usual form: expressions that name more than ten constants, string constants with line breaks / tabs,
 # constant and length expressions with shifts, bitwise operators, //, %, ** and unary signs, lengths whose '/' does not come out whole
 EXPRS = ("many-symbols", "string-control", "rich-operators", "inexact-div-length")
+# definitions called like a definition of another namespace (of the closure or of the imported core definitions: module id RTMA_LOG, message
+# QUICK_LOGGER, host id TIMING_MESSAGE); messages called MM_ERROR / MM_INFO / DEBUG_TEXT (the MATLAB back end writes those names itself);
+# a struct / alias / message called ``string`` (a helper of the JavaScript module's type table): plain identifiers, no conflict
+NAMES = ("cross-namespace-names", "backend-literal-names")
 # single constructs a careful compiler refuses and a careless one writes verbatim into its outputs (vlib.defgen.add_hygiene); only the
 # kinds whose names are identifiers in all four languages belong to this property
 HYGIENE = G.HYGIENE_LEGAL_IDENTIFIERS
@@ -175,7 +183,8 @@ def _case_findings(program: G.Program, ex: L.Exam):
     if ex.c_syntax is not None and not ex.c_syntax[0]:
         text = ex.c_syntax[1]
         m = re.search(r"unknown type name .(\w+).", text)
-        cls = "user-dir-named-core_defs" if "dir-core_defs" in program.classes and ("unknown type name" in text or "undeclared" in text) else \
+        cls = "name-shared-with-another-namespace" if "cross-namespace-names" in program.classes and ("unknown type name" in text or "undeclared" in text) else \
+            "user-dir-named-core_defs" if "dir-core_defs" in program.classes and ("unknown type name" in text or "undeclared" in text) else \
             _name_class(program, m.group(1)) if m else ("string-special" if special and ("terminating" in text or "expected" in text or "stray" in text) else "general")
         out.append((f"c/does-not-compile/{cls}", f"gcc rejects the generated header: {text}"[:400]))
     # ---- JavaScript
@@ -243,7 +252,8 @@ def run_case(E: L.Examiner, program: G.Program, res: Result = None, fresh_py=Tru
         for c in program.classes:
             if c in SUSPECT or c in ("cross-file-struct-field", "cross-file-message-field", "reuse-cross-file", "alias-field", "alias-of-alias",
                                      "alias-of-imported-alias", "message-in-message", "struct-array", "reserved-range-dash", "reserved-range-to",
-                                     "multi-path", "cycle", "respell", "signal", "needs-padding") or c in EXPRS:
+                                     "multi-path", "cycle", "respell", "signal", "needs-padding", "string-yamlish", "cross-namespace/core",
+                                     "cross-namespace/user") or c in EXPRS or c in NAMES or c.startswith("backend-literal/"):
                 res.count("class/" + c)
         nt, sh = shape_of(program)
         if nt and ex.compile_error is None and not ex.hung:
@@ -318,7 +328,8 @@ def st_programs():
     opt = st.sampled_from([SUSPECT, SUSPECT[:2], SUSPECT[2:3], SUSPECT[3:4], SUSPECT[4:5], SUSPECT[5:]]).flatmap(lambda a: G.programs(skeleton=True, allow=a))
     exprs = st.sampled_from([EXPRS, EXPRS[:1], EXPRS[1:2], EXPRS[2:]]).flatmap(lambda a: G.programs(allow=a, rich=True))
     hyg = G.hygiene_programs(kinds=HYGIENE, max_files=3)
-    return st.one_of(plain, skel, rich, opt, opt, opt, exprs, exprs, hyg)
+    names = G.programs(allow=NAMES + ("string-control",), max_files=4)
+    return st.one_of(plain, skel, rich, opt, opt, opt, exprs, exprs, hyg, names)
 
 
 def shard(seed, n, idx, quick):
@@ -343,6 +354,9 @@ def shard(seed, n, idx, quick):
         from checks.c04 import alias_chain_program, covering_program, substring_program
 
         cov = [substring_program(idx % 2 == 0), alias_chain_program(idx % 4 < 2, idx % 2)] + ([covering_program(idx % 2 == 1, idx % 2)] if idx < 4 else [])
+        # every accepted way of calling a definition like a definition of another namespace (core names / user names), and every text of
+        # the generator's string vocabulary (line breaks, lines that look like YAML, colons glued to text ...), a quarter per shard
+        cov.append(G.build_cross_namespace_cover_program(idx % 4 == 0) if idx % 4 < 2 else G.build_string_cover_program(idx % 4 == 2, part=idx // 4, parts=4))
         for program in cov:
             for key, what in run_case(E, program, res, fresh_py="fork"):
                 res.add_finding(key, what, {"key": key, "program": program.to_json()})
